@@ -321,10 +321,10 @@ def subset_check(ck, n):
                     smax = max(sd + [1e-300])
                     for i2 in range(N):
                         for a2 in range(len(ma[i2])):
-                            if abs(ma[i2][a2] - mb[i2][a2]) > 1e-7 * (abs(ma[i2][a2]) + max(sd[i2], 1e-7 * smax)) + 1e-13:
+                            if abs(ma[i2][a2] - mb[i2][a2]) > 1e-5 * (abs(ma[i2][a2]) + max(sd[i2], 1e-7 * smax)) + 1e-13:
                                 problem = problem or f"mean at t={float(t)} [{i2}][{a2}]: {ma[i2][a2]!r} (subset) vs {mb[i2][a2]!r} (superset)"
                         for j2 in range(N):
-                            if abs(ca_[i2][j2] - cb_[i2][j2]) > 1e-6 * max(sd[i2], 1e-7 * smax) * max(sd[j2], 1e-7 * smax) + 1e-300:
+                            if abs(ca_[i2][j2] - cb_[i2][j2]) > 1e-4 * max(sd[i2], 1e-7 * smax) * max(sd[j2], 1e-7 * smax) + 1e-300:
                                 problem = problem or f"cov at t={float(t)} [{i2}][{j2}]: {ca_[i2][j2]!r} (subset) vs {cb_[i2][j2]!r} (superset)"
                 if j > 0 and ra["num_steps"][j - 1] != rb["num_steps"][jb - 1]:
                     problem = problem or f"num_steps at t={float(t)}: {ra['num_steps'][j - 1]} (subset) vs {rb['num_steps'][jb - 1]} (superset)"
@@ -332,7 +332,7 @@ def subset_check(ck, n):
                     oa, ob = ra["output_scale"], rb["output_scale"]
                     off = len(oa) - (len(A) - 1)
                     xa, xb = oa[j - 1 + off], ob[jb - 1 + off]
-                    if any(abs(p - q) > 1e-7 * abs(p) for p, q in zip(xa, xb)):
+                    if any(abs(p - q) > 1e-5 * abs(p) for p, q in zip(xa, xb)):
                         problem = problem or f"output scale at t={float(t)}: {xa} (subset) vs {xb} (superset)"
             if problem:
                 ck.report(f"C05.{c['kind']}.{c['strat']}.checkpoint-independence", f"{c['kind']}/{c['strat']}/{c['calib']}: {problem}",
@@ -344,9 +344,9 @@ def subset_check(ck, n):
                 (ma, ca_), (mb, cb_) = na[(len(A) - 1) * nb + a], nt[a]
                 sd = [math.sqrt(max(ca_[i][i], 0.0)) for i in range(N)]
                 smax = max(sd + [1e-300])
-                bad = any(abs(ma[i2][a2] - mb[i2][a2]) > 1e-7 * (abs(ma[i2][a2]) + max(sd[i2], 1e-7 * smax)) + 1e-13
+                bad = any(abs(ma[i2][a2] - mb[i2][a2]) > 1e-5 * (abs(ma[i2][a2]) + max(sd[i2], 1e-7 * smax)) + 1e-13
                           for i2 in range(N) for a2 in range(len(ma[i2])))
-                bad = bad or any(abs(ca_[i2][j2] - cb_[i2][j2]) > 1e-6 * max(sd[i2], 1e-7 * smax) * max(sd[j2], 1e-7 * smax) + 1e-300
+                bad = bad or any(abs(ca_[i2][j2] - cb_[i2][j2]) > 1e-4 * max(sd[i2], 1e-7 * smax) * max(sd[j2], 1e-7 * smax) + 1e-300
                                  for i2 in range(N) for j2 in range(N))
                 if bad:
                     ck.report(f"C05.{c['kind']}.{c['strat']}.terminal-values", f"{c['kind']}/{c['strat']}/{c['calib']}: solve_adaptive_terminal_values differs from the last checkpoint of solve_adaptive_save_at",
